@@ -232,12 +232,18 @@ Definition lexeme_ok (l : lexeme) : bool :=
 
 Definition is_alnum_ (c : Z) : bool := is_ident c 1.
 
+(* a "." may follow a numeral directly when the numeral is hexadecimal or has an exponent: Lua 5.1's
+   read_numeral takes dots only in its first phase (digits and dots), so 0x1..x and 1e2..x are
+   numeral, "..", x; after a plain decimal numeral the dot would be taken into it (1..x is malformed) *)
+Definition num_dot_ok (s : bytes) : bool :=
+  hex_number_ok s || existsb (fun c => (c =? 101) || (c =? 69)) s.
+
 (* c = the byte that follows the lexeme in the rendering (-1 at the end of input).
    false = the lexeme would be read differently (merge with what follows). *)
 Definition no_merge (l : lexeme) (c : Z) : bool :=
   match l with
   | LxName _ => negb (is_alnum_ c)
-  | LxNumber _ => negb (is_alnum_ c) && negb (c =? 46)
+  | LxNumber s => negb (is_alnum_ c) && (negb (c =? 46) || num_dot_ok s)
   | LxString _ _ => true
   | LxLong _ _ => true
   | LxSym ty =>
